@@ -232,7 +232,8 @@ impl BoardMonitor for C20 {
         for i in 0..self.strings_per_board {
             let s = if !texts.is_empty() && i % 4 != 3 {
                 let base = cx.rng.pick(&texts).clone();
-                match cx.rng.below(8) {
+                match cx.rng.below(9) {
+                    8 => alias_substitution(&mut cx.rng, &base),
                     0 => base,
                     1 => {
                         // drop disambiguators / capture mark / suffix
@@ -267,10 +268,27 @@ impl BoardMonitor for C20 {
                         let lm = *cx.rng.pick(&legal);
                         let pcs = m.sq[lm.from as usize].map(|x| x.1).unwrap_or(Piece::Pawn);
                         let l = piece_letter(pcs).to_ascii_uppercase();
-                        match cx.rng.below(3) {
+                        match cx.rng.below(5) {
                             0 => sq_name(lm.to as usize),
                             1 => format!("{}{}", l, sq_name(lm.to as usize)),
-                            _ => format!("{}{}{}", l, sq_name(lm.from as usize), sq_name(lm.to as usize)),
+                            2 => format!("{}{}{}", l, sq_name(lm.from as usize), sq_name(lm.to as usize)),
+                            3 => {
+                                // fully specified origin with a WRONG piece letter
+                                let wrong = *cx.rng.pick(&['K', 'Q', 'R', 'B', 'N']);
+                                let x = if m.is_capture(lm) && cx.rng.chance(1, 2) { "x" } else { "" };
+                                let promo = match lm.promo {
+                                    Some(pp) => format!("={}", piece_letter(pp).to_ascii_uppercase()),
+                                    None => String::new(),
+                                };
+                                format!("{}{}{}{}{}", wrong, sq_name(lm.from as usize), x, sq_name(lm.to as usize), promo)
+                            }
+                            _ => {
+                                // origin file or rank only, with a random piece letter
+                                let letter = *cx.rng.pick(&['K', 'Q', 'R', 'B', 'N', 'P']);
+                                let o = sq_name(lm.from as usize);
+                                let part = if cx.rng.chance(1, 2) { &o[0..1] } else { &o[1..2] };
+                                format!("{}{}{}", letter, part, sq_name(lm.to as usize))
+                            }
                         }
                     }
                     _ => mutate(&mut cx.rng, &base, SAN_ALPHABET),
